@@ -65,8 +65,10 @@ T0 = 1_700_000_000.0
 KNOWN = "C24.stale_pending_after_recovery"
 
 
-def _alphabet(nreg, tier_extra):
+def _alphabet(nreg, tier_extra, reuse=False):
     a = ["Cn", "Cs"]
+    if reuse:
+        a += ["Cr", "Cb"]
     if nreg >= 2:
         a += ["Cp", "Cq"]
     a.append("F")
@@ -94,8 +96,10 @@ DEEP_PREFIXES = {
 }
 
 
-def _deep_alphabet(nreg):
+def _deep_alphabet(nreg, reuse=False):
     a = ["Cn", "Cs"]
+    if reuse:
+        a += ["Cr", "Cb"]
     if nreg >= 2:
         a += ["Cp", "Cq"]
     a.append("F")
@@ -105,7 +109,9 @@ def _deep_alphabet(nreg):
 
 
 def _alpha_of(c):
-    return _deep_alphabet(c["nreg"]) if c.get("deep") else _alphabet(c["nreg"], c["extra"])
+    if c.get("deep"):
+        return _deep_alphabet(c["nreg"], c.get("reuse", False))
+    return _alphabet(c["nreg"], c["extra"], c.get("reuse", False))
 
 
 def _deep_configs(tier):
@@ -118,6 +124,26 @@ def _deep_configs(tier):
                 out.append(({"nreg": 1, "owm": owm, "api": "single", "extra": False, "deep": name}, 5 if q else 6))
             out.append(({"nreg": 2, "owm": owm, "api": "batch", "extra": False, "deep": name}, 4 if q else 5))
         out.append(({"nreg": 2, "owm": True, "api": "single", "extra": False, "deep": name}, 3 if q else 5))
+        # the same start with the re-command symbols Cr / Cb in the suffix alphabet
+        if minreg <= 1:
+            for api in ("batch", "single"):
+                out.append(({"nreg": 1, "owm": True, "api": api, "extra": False, "deep": name, "reuse": True}, 4 if q else 6))
+            out.append(({"nreg": 1, "owm": False, "api": "batch", "extra": False, "deep": name, "reuse": True}, 4 if q else 5))
+        out.append(({"nreg": 2, "owm": True, "api": "batch", "extra": False, "deep": name, "reuse": True}, 3 if q else 4))
+    return out
+
+
+def _reuse_configs(tier):
+    """From the OK state with the re-command symbols: Cr = command again the value last written successfully to the
+    register, Cb = command again the value commanded before the current one."""
+    q = tier == "quick"
+    out = []
+    for owm in (True, False):
+        out.append(({"nreg": 1, "owm": owm, "api": "batch", "extra": False, "reuse": True}, (6 if owm else 5) if q else 7))
+        out.append(({"nreg": 1, "owm": owm, "api": "single", "extra": False, "reuse": True}, 5 if q else 7))
+        out.append(({"nreg": 2, "owm": owm, "api": "batch", "extra": False, "reuse": True}, 4 if q else (6 if owm else 5)))
+    out.append(({"nreg": 2, "owm": True, "api": "single", "extra": False, "reuse": True}, 4 if q else 5))
+    out.append(({"nreg": 1, "owm": True, "api": "batch", "extra": True, "reuse": True}, 5 if q else 6))
     return out
 
 
@@ -138,7 +164,7 @@ def _configs(tier):
 
 def plan(tier, seed):
     jobs = []
-    for c, L in _configs(tier) + _deep_configs(tier):
+    for c, L in _configs(tier) + _reuse_configs(tier) + _deep_configs(tier):
         a = _alpha_of(c)
         k = 1 if tier == "quick" else 2
         plen = len(DEEP_PREFIXES[c["deep"]][0]) if c.get("deep") else 0
@@ -277,8 +303,13 @@ def run_sequence(env, c, seq, cnt, info):
     advR = cfg.reconnect_timeout_seconds + 1
     advE = cfg.error_timeout_seconds + 1
     batch = c["api"] == "batch"
-    commanded: dict = {}                      # name -> current commanded value  (value = cycle*8 + j, cycle >= 1)
-    last_written_cycle = {r.name: 0 for r in regs}
+    commanded: dict = {}                      # name -> current commanded value  (a new value = cycle*8 + j, cycle >= 1)
+    # Command history per register as *epochs*: a new epoch starts whenever the commanded value differs from the one of
+    # the cycle before. Without the re-command symbols every epoch has a fresh value, so the epoch order is the order of
+    # the creation cycles. Cr / Cb bring an earlier value back: a hardware write of value v is then attributed to the
+    # LATEST epoch that commanded v (most charitable reading - the write cannot be told from a write of that command).
+    epochs: dict = {r.name: [] for r in regs}
+    last_written_epoch = {r.name: -1 for r in regs}
     survivors: dict = {}                      # name -> pending value that outlived a successful write of its register
     viol = []
     sig = []
@@ -308,20 +339,32 @@ def run_sequence(env, c, seq, cnt, info):
             from_pending = pend_before.get(name) == v and v != after_call.direct.get(name)
             if from_pending:
                 cnt["pending_flush_writes"] = cnt.get("pending_flush_writes", 0) + 1
-            if cyc < last_written_cycle[name]:
+            after_call.last_write[name] = (i, from_pending)
+            if not from_pending:
+                after_call.direct_written.add(name)
+            eps = [e for e, val in enumerate(epochs[name]) if val == v]
+            if not eps:
+                viol.append(("C24.never_commanded_value_written", f"register {name}: value {v} was written to the hardware but "
+                             f"never commanded for it; at event #{i} {a} of {'/'.join(seq)} {c}"))
+                continue
+            ep = eps[-1]
+            if len(eps) > 1:
+                cnt["hw_writes_of_a_recommanded_value"] = cnt.get("hw_writes_of_a_recommanded_value", 0) + 1
+            if ep < last_written_epoch[name]:
                 if survivors.get(name) == v and pend_before.get(name) == v:
                     mech = KNOWN
                 elif pend_before.get(name) == v:
                     mech = "C24.pending_value_written_after_newer_value"
                 else:
                     mech = "C24.older_value_written_after_newer_value"
-                viol.append((mech, f"register {name}: value of cycle {cyc} written to hardware after a value of cycle "
-                                   f"{last_written_cycle[name]} (commanded now: cycle {commanded.get(name, 0) >> 3}); "
-                                   f"value came from pending_writes={pend_before.get(name) == v}, entry had survived a "
+                viol.append((mech, f"register {name}: value {v} (created in cycle {cyc}, last commanded in value epoch {ep}) "
+                                   f"written to hardware after the value of epoch {last_written_epoch[name]} (created in "
+                                   f"cycle {epochs[name][last_written_epoch[name]] >> 3}; commanded now: epoch "
+                                   f"{len(epochs[name]) - 1}, value created in cycle {commanded.get(name, 0) >> 3}); value came from pending_writes={pend_before.get(name) == v}, entry had survived a "
                                    f"successful write of the register={survivors.get(name) == v}; at event #{i} {a} of "
                                    f"{'/'.join(seq)} {c}"))
             else:
-                last_written_cycle[name] = cyc
+                last_written_epoch[name] = ep
         # mechanism bookkeeping only: pending entries that are still there although their register was just written
         now_pending = {r.name: v for r, v in d.pending_writes.items()}
         written_ok = {name for kind, name, v, ok in hw.ev if kind == "w" and ok}
@@ -335,10 +378,14 @@ def run_sequence(env, c, seq, cnt, info):
 
     after_call.pend_before = {}
     after_call.direct = {}
+    after_call.direct_written = set()         # registers written with the cycle's own value in the current cycle
+    after_call.last_write = {}                # name -> (event index, came from pending_writes) of the last successful write
     for i, a in enumerate(seq):
         k = a[0]
         if k == "C":
             cyc = i + 1
+            prev_cmd = dict(commanded)
+            after_call.direct_written = set()
             if a == "Cn" or not commanded:
                 for j, r in enumerate(regs):
                     commanded[r.name] = cyc * 8 + j
@@ -346,8 +393,31 @@ def run_sequence(env, c, seq, cnt, info):
                 commanded["R0"] = cyc * 8
             elif a == "Cq":
                 commanded[regs[-1].name] = cyc * 8 + nreg - 1
+            elif a == "Cr":
+                # every register commands again the value that was last written successfully to the hardware for it
+                for j, r in enumerate(regs):
+                    m = hw.mem.get(r.name)
+                    if m is not None and (m & 7) == j and m in epochs[r.name]:
+                        commanded[r.name] = m
+            elif a == "Cb":
+                # every register commands again the value it commanded before its current one (previous value epoch)
+                for r in regs:
+                    if len(epochs[r.name]) >= 2:
+                        commanded[r.name] = epochs[r.name][-2]
             values = [commanded[r.name] for r in regs]
-            new_value = any((v >> 3) == cyc for v in values)
+            new_value = any(commanded[n] != prev_cmd.get(n) for n in commanded)
+            pend0 = {x.name: v for x, v in d.pending_writes.items()}
+            for r in regs:
+                v = commanded[r.name]
+                if not epochs[r.name] or epochs[r.name][-1] != v:
+                    if v in epochs[r.name]:
+                        kk = "cycles_recommanding_last_written_value" if a == "Cr" else "cycles_recommanding_previous_value"
+                        cnt[kk] = cnt.get(kk, 0) + 1
+                        if pend0.get(r.name) not in (None, v):
+                            cnt["recommand_while_other_value_buffered"] = cnt.get("recommand_while_other_value_buffered", 0) + 1
+                        if d.state.name != "OK":
+                            cnt["recommand_during_outage"] = cnt.get("recommand_during_outage", 0) + 1
+                    epochs[r.name].append(v)
             raised = None
             any_hw_fail = False
             calls = [(values, regs)] if batch else [([v], [r]) for v, r in zip(values, regs)]
@@ -402,15 +472,22 @@ def run_sequence(env, c, seq, cnt, info):
                     if hw.mem.get(r.name) != commanded[r.name]:
                         got = hw.mem.get(r.name)
                         pend = {x.name: v for x, v in d.pending_writes.items()}
+                        lw = after_call.last_write.get(r.name)
                         if got is not None and f"R{got & 7}" != r.name:
                             mech = "C24.value_written_to_wrong_register"
+                        elif lw is not None and lw[0] == i and lw[1] and r.name not in after_call.direct_written \
+                                and commanded[r.name] in epochs[r.name][:-1]:
+                            # this cycle wrote nothing of what it commanded for the register (a re-commanded earlier value,
+                            # filtered as 'not modified') but flushed the buffered value of an older epoch over it
+                            mech = "C24.buffered_value_flushed_over_filtered_recommanded_value"
                         elif pend.get(r.name) == commanded[r.name]:
                             mech = "C24.commanded_value_still_pending_after_clean_cycle"
                         else:
                             mech = "C24.commanded_value_lost"
-                        viol.append((mech, f"after a clean cycle in OK register {r.name} holds {got} (cycle "
-                                           f"{(got or 0) >> 3}) but the engine last commanded {commanded[r.name]} (cycle "
-                                           f"{commanded[r.name] >> 3}); pending={pend}; at event #{i} {a} of {'/'.join(seq)} {c}"))
+                        viol.append((mech, f"after a clean cycle in OK register {r.name} holds {got} (created in cycle "
+                                           f"{(got or 0) >> 3}) but the engine last commanded {commanded[r.name]} (created in "
+                                           f"cycle {commanded[r.name] >> 3}, value epochs of the register: "
+                                           f"{epochs[r.name]}); pending={pend}; at event #{i} {a} of {'/'.join(seq)} {c}"))
                         break
             elif st != "OK" or any_hw_fail or state_before != "OK":
                 recovered_pending = True
@@ -463,7 +540,7 @@ def run_shard(spec):
         deep = c.get("deep")
         prefix = list(DEEP_PREFIXES[deep][0]) if deep else []
         head = prefix + [alpha[i] for i in first]
-        ckey = (c["nreg"], c["owm"], c["api"], deep)
+        ckey = (c["nreg"], c["owm"], c["api"], deep, bool(c.get("reuse")))
         n = 0
         for tail in itertools.product(alpha, repeat=L - len(first)):
             seq = head + list(tail)
@@ -481,6 +558,8 @@ def run_shard(spec):
             for mech, msg in viol:
                 res.violation(mech, msg, {"c": c, "seq": seq})
         cnt["sequences"] = cnt.get("sequences", 0) + n
+        if c.get("reuse"):
+            cnt["recommand_alphabet_sequences"] = cnt.get("recommand_alphabet_sequences", 0) + n
         if deep:
             cnt["deep_sequences"] = cnt.get("deep_sequences", 0) + n
             cnt["deep_start:" + deep] = cnt.get("deep_start:" + deep, 0) + n
